@@ -48,15 +48,15 @@
   {'op': 'func', 'file': 'igris/container/ring.h', 'name': 'fixup_index', 'in_class': 'ring', 'self': 'ring', 'as': 'ring_fixup_index_m', 'members': ['r', 'buffer']},
   {'op': 'func', 'file': 'igris/container/ring.h', 'name': 'last', 'in_class': 'ring', 'self': 'ring', 'as': 'ring_last', 'members': ['r', 'buffer'],
    'tparams': {'T': 'char'}, 'ret': 'char *', 'methods': {'fixup_index': 'ring_fixup_index_m'},
-   'rewrite': [[r'return self->buffer\[idx\];', 'return unbounded_array_at(&self->buffer, idx);', 1]]},
+   'rewrite': [[r'return self->buffer\[([^;]*)\];', r'return unbounded_array_at(&self->buffer, \1);', 1]]},
   {'op': 'func', 'file': 'igris/container/ring.h', 'name': 'tail', 'in_class': 'ring', 'self': 'ring', 'as': 'ring_tail', 'members': ['r', 'buffer'],
    'tparams': {'T': 'char'}, 'ret': 'char *',
-   'rewrite': [[r'return self->buffer\[self->r\.tail\];', 'return unbounded_array_at(&self->buffer, self->r.tail);', 1]]},
+   'rewrite': [[r'return self->buffer\[([^;]*)\];', r'return unbounded_array_at(&self->buffer, \1);', 1]]},
   {'op': 'func', 'file': 'igris/container/ring.h', 'name': 'push', 'in_class': 'ring', 'self': 'ring', 'as': 'ring_push', 'members': ['r', 'buffer'],
    'tparams': {'T': 'char'}, 'refs': ['obj'],
    'rewrite': [[r'new \(self->buffer\.data\(\) \+ self->r\.head\) char\(\(\*obj\)\);', '*(self->buffer.m_data + self->r.head) = (*obj); /* placement new of a char */', 1]]},
   {'op': 'func', 'file': 'igris/container/ring.h', 'name': 'pop', 'in_class': 'ring', 'self': 'ring', 'as': 'ring_pop', 'members': ['r', 'buffer'],
-   'rewrite': [[r'self->buffer\[idx\]\.~T\(\);', '(void)unbounded_array_at(&self->buffer, idx); /* ~char(): trivial */', 1]]},
+   'rewrite': [[r'self->buffer\[([^;]*)\]\.~T\(\);', r'(void)unbounded_array_at(&self->buffer, \1); /* ~char(): trivial */', 1]]},
   {'op': 'func', 'file': 'igris/container/ring.h', 'name': 'move_head_one', 'in_class': 'ring', 'self': 'ring', 'as': 'ring_move_head_one_m', 'members': ['r', 'buffer']},
   {'op': 'func', 'file': 'igris/container/ring.h', 'name': 'set_last_index', 'in_class': 'ring', 'self': 'ring', 'as': 'ring_set_last_index', 'members': ['r', 'buffer'],
    'methods': {'move_head_one': 'ring_move_head_one_m'}},
